@@ -12,6 +12,7 @@ are inlined context-sensitively; library calls go through sa.apitable.
 from __future__ import annotations
 
 import ast
+import os
 from fractions import Fraction
 
 from . import loops
@@ -1184,16 +1185,27 @@ class Interp:
                 ht = head_terms.get((where, key))
                 bv = self._get_binding(head, where, key)
                 init = self._get_binding(pre, where, key)
-                if ht is None or bv is None or init is None or init.kind != "int" or bv.kind not in ("int",):
+                if os.environ.get("VERIF_DEBUG_IND"):
+                    print("IND?", key, init.kind if init is not None else None, bv.kind if bv is not None else None, bv.shape if bv is not None else None, repr(bv.term)[:200] if bv is not None else None)
+                if ht is None or bv is None or init is None or init.kind != "int" or not (bv.kind == "int" or (bv.kind == "arr" and bv.shape in ((), None))):
                     continue
                 t_ = bv.term
+                if os.environ.get("VERIF_DEBUG_IND"):
+                    print("IND", key, repr(t_)[:300], "| ht", repr(ht), "| iter", repr(iter_term)[:120])
                 # a path that leaves the loop (break) never starts another iteration: only the continuing arm counts
                 while isinstance(t_, Term) and t_.op == "phi" and len(t_.args) == 3 and isinstance(t_.args[0], Term) and t_.args[0].op == "loopctl" and t_.args[0].args and t_.args[0].args[0] == "break" and ht in (t_.args[1], t_.args[2]):
                     t_ = t_.args[2] if t_.args[1] == ht else t_.args[1]
                 if isinstance(t_, Term) and t_.op == "add" and len(t_.args) == 2 and ht in t_.args:
                     stp = t_.args[1] if t_.args[0] == ht else t_.args[0]
-                    if isinstance(stp, Term) and stp.op == "const" and not loops.mentions_head(stp, lid):
+                    if bv.kind == "int" and isinstance(stp, Term) and stp.op == "const" and not loops.mentions_head(stp, lid):
                         indmap[ht] = T("add", init.term, T("smul", stp, T("lv", lid))) if stp != const(1) else T("add", init.term, T("lv", lid))
+                    elif is_for and it is not None and init.term == const(0) and isinstance(iter_term, Term) and stp == T("getitem", iter_term, T("lv", lid)) and not loops.mentions_head(iter_term, lid):
+                        # a running offset (start = 0; for n in lens: ...; start += n): before pass k it is the sum of the
+                        # first k lengths, cumsum([0] + lens)[k]; advanced by the current length it is entry k + 1
+                        cuts = T("cumsum", T("concat", T("list", const(0)), iter_term))
+                        indmap[T("add", ht, stp)] = T("getitem", cuts, T("add", T("lv", lid), const(1)))
+                        indmap[T("add", stp, ht)] = T("getitem", cuts, T("add", T("lv", lid), const(1)))
+                        indmap[ht] = T("getitem", cuts, T("lv", lid))
         if indmap:
             for where, key in changed:
                 bv = self._get_binding(head, where, key)
@@ -1202,7 +1214,10 @@ class Interp:
                     continue
                 nt = subst_term(bv.term, indmap)
                 if nt is not bv.term:
-                    self._set_binding(head, where, key, bv.replace(term=nt))
+                    nb = bv.replace(term=nt)
+                    if isinstance(bv.extra, tuple) and len(bv.extra) == 2 and bv.extra[0] == "last" and isinstance(bv.extra[1], V):
+                        nb.extra = ("last", bv.extra[1].replace(term=subst_term(bv.extra[1].term, indmap)))
+                    self._set_binding(head, where, key, nb)
             if cterm is not None:
                 cterm = cterm.replace(term=subst_term(cterm.term, indmap))
         if guard_term is not None and alive2:
@@ -1241,7 +1256,7 @@ class Interp:
                 if asc is None:
                     asc = self._fold_loop(it, lid, init, head_terms.get((where, key)), body_v, out)
                 if asc is None:
-                    asc = self._store_loop(it, lid, init, head_terms.get((where, key)), body_v)
+                    asc = self._store_loop(it, lid, init, head_terms.get((where, key)), body_v, out)
                 if asc is not None:
                     self._set_binding(out, where, key, asc)
                     continue
@@ -1637,7 +1652,7 @@ class Interp:
                     vt = loops.vectorise(elt.term, lvt, n, self.term_shape, self.api.dim_term)
                 elif esh is not None:
                     vt = loops.row_selection(elt.term, lvt, n, self.term_shape)
-                if vt is None and not masks and it.kind in ("range", "zip", "arr", "enumerate"):
+                if vt is None and not masks and it.kind in ("range", "zip", "arr", "enumerate", "list"):
                     blk = loops.consecutive_blocks(elt.term, lvt, n, self.term_shape)
                     if blk is not None:
                         # consecutive row blocks of lengths L (np.split at the running sums)
@@ -1717,9 +1732,14 @@ class Interp:
         if e_vec is None or any(m is None for m in masks):
             return {}
         inf = const("inf")
+        d0 = init_d.term
+        if d0 != inf and self.term_shape(d0) == ():
+            # a finite starting bound d0 is one more condition on the candidates: e(j) < d0.  The first minimum
+            # of the candidates below d0 is the first minimum of all candidates whenever one is below d0
+            masks = masks + [T("lt", e_vec, d0)]
         w = T("where3", loops.conj(masks), e_vec, inf) if masks else e_vec
         wmin = T("amin", w)
-        found = T("lt", wmin, init_d.term)
+        found = T("lt", wmin, inf if d0 != inf and self.term_shape(d0) == () else d0)
         out = {}
         labels = frozenset().union(*[v[1].labels | v[0].labels for v in vals.values()]) | it.labels
         for k, (init, body_v, ht, t, cj) in vals.items():
@@ -1737,7 +1757,7 @@ class Interp:
             out[k] = body_v.replace(term=newt, labels=labels, has_const=False, const_=None, items=None, dim=None)
         return out
 
-    def _store_loop(self, it, lid, init, head_t, body_v):
+    def _store_loop(self, it, lid, init, head_t, body_v, st=None):
         """for j in range(n): out[j] = e(j)   /   out[j, c] = e(j)   /   out[c, j] = e(j)
         fills the whole axis of extent n with the vector [e(j)]"""
         if it is None or init is None or body_v is None or head_t is None or init.kind != "arr" or init.shape is None:
@@ -1753,6 +1773,21 @@ class Interp:
         if loops.mentions_head(e, lid) or loops.mentions_head(idx, lid):
             return None
         esh = self.term_shape(e)
+        if st is not None and esh is not None and len(esh) >= 1 and len(init.shape) == len(esh) and isinstance(idx, Term) and idx.op == "slice" and len(idx.args) == 3 and idx.args[2] == const(None) and tuple(init.shape[1:]) == tuple(esh[1:]) and esh[0].known() and init.shape[0] == n.mul(esh[0]) and not any(isinstance(at_, tuple) and at_[0] == "t" and loops.mentions(at_[1], lvt) for at_, _ in esh[0].lin):
+            # out[j*m:(j+1)*m] = block(j) for every j: the blocks [block(j) for j in range(n)] joined along the first axis
+            from .nf import Normalizer
+
+            N_ = Normalizer()
+            m_t = self.api.dim_term(esh[0])
+            ev = self.vtab.get(e)
+            if ev is not None and N_.nf(idx.args[0]) == N_.nf(T("smul", lvt, m_t)) and N_.nf(idx.args[1]) == N_.nf(T("smul", T("add", lvt, const(1)), m_t)):
+                cid = "C" + lid[1:]
+                m = {lvt: T("lv", cid)}
+                comp = self._mk_comp(it, cid, ev.replace(term=subst_term(e, m)), [])
+                joined = self.api.call_external(self, "numpy.concatenate", [comp], {}, st, None)
+                if joined.kind == "arr" and joined.shape is not None and tuple(joined.shape) == tuple(init.shape):
+                    return init.replace(term=joined.term, labels=init.labels | body_v.labels, has_const=False, const_=None, items=None)
+            return None
         if esh is not None and len(esh) >= 1 and idx == lvt and len(init.shape) == len(esh) + 1 and init.shape[0] == n and tuple(init.shape[1:]) == tuple(esh):
             # out[j] = row(j) for every j: the rows [row(j) for j in range(n)]
             ev = self.vtab.get(e)
